@@ -76,7 +76,7 @@ CHECKS = {
         "Generated-input search over bases, density matrices, points, transformations, with all nine special (alpha,beta) "
         "cells enumerated plus random reals: stress tensor from its documented definition, force derived as -div sigma, "
         "Hessian as Jacobian of the force, symmetric option; tolerance 1e-9 of sum|terms|; Richardson finite differences "
-        "of the library's sigma and F at 1e-5.",
+        "of the library's sigma and F at 1e-5; each function called once more on the same objects after the density matrix was halved and the points reversed in place.",
         "Trusts vf/ref R5 + dens algebra; Hessian sign convention = documented expanded formula (+dF_j/dr_k).",
         "DESIGN.md 6/C15",
     ),
@@ -156,7 +156,7 @@ CHECKS = {
         "Generated bases with every shell ordering enumerated; results must change only by the block permutation; symmetric / "
         "Hermitian / eight-fold symmetry of results; shell blocks computed in every orientation independently, for generated "
         "quartets and for the fixed ill-conditioned list of C04. "
-        ' Orientation sub-checks also over many-primitive quartets, one-contraction-on-every-shell quartets and diffuse/very tight pairs.',
+        ' Orientation sub-checks also over many-primitive quartets, one-contraction-on-every-shell quartets, diffuse/very tight pairs and the enumerated equal-l corners with wide contractions on either or both shells (point-charge and overlap kernels).',
         "ERI relations at 2e-6 of the Schwarz scale (library-derived), others 1e-9/1e-8 of natural magnitudes. "
         ' ',
         "DESIGN.md 6/C11",
@@ -209,7 +209,7 @@ CHECKS = {
         "trapezoid quadrature with per-case derived grid",
         "Generated bases of every type pattern (exponents 0.3-3) integrated on grids of up to ~1.4M points: products of "
         "evaluated functions vs overlap and moment matrices, gradients vs kinetic matrix, density vs tr(gamma S), t+ vs "
-        "tr(gamma T), at 1e-9.",
+        "tr(gamma T), at 1e-9; gradients and t+ from deriv_type='direct' in every other case (grid planes through centre coordinates).",
         "Quadrature converges geometrically for polynomial x Gaussian integrands; only the exponent window 0.3-3 is covered.",
         "DESIGN.md 6/C16",
     ),
@@ -220,7 +220,7 @@ CHECKS = {
         "the setters, renormalisation, numpy error-state changes): after every step all pooled arguments/shells are "
         "bit-identical to the model, numpy.geterr() is what the machine set, a valid call equals the same call on never "
         "shared copies, shells are unit-normalised as constructed and after assign_norm_cont(). "
-        ' Includes a thresholded electrostatic potential on a 3003-point grid (results must not depend on the process history).',
+        ' Includes a thresholded electrostatic potential on a 3003-point grid (results must not depend on the process history) and a rule that repeats a call on the same objects after changing the contents of one of them in place, no other call intervening.',
         "Histories up to 20 (quick) / 30 (thorough) steps; only object kinds in the pool (incl. shells imported through "
         "from_iodata from two stand-in molecules with different conventions, and in-place changes of shell arrays). Failing histories are stored as "
         "plain step lists and replayed through the same interpreter without Hypothesis. D7 and D9 were found here / in C18. "
